@@ -262,6 +262,7 @@ type Pend struct {
 	// concurrent layer
 	answered bool
 	result   *abci.ResponseCheckTx
+	verdict  *Verdict
 }
 
 // Conn implements proxy.AppConnMempool. Requests queue up (FIFO, as on an ABCI connection); the harness
@@ -577,10 +578,15 @@ func (r *Ref) Settle() {
 	}
 }
 
-// Deliver answers request i with verdict v and returns an outcome label. freshEntry tells whether the real
-// mempool created a new list entry for the transaction; it is consulted in one property-neutral corner only
-// (see below).
-func (r *Ref) Deliver(i int, v Verdict, freshEntry bool) string {
+const (
+	hintFresh      = iota // the real mempool created a new list entry for the transaction
+	hintRemembered        // no new entry, the real cache holds the transaction
+	hintForgotten         // no new entry, the real cache does not hold the transaction
+)
+
+// Deliver answers request i with verdict v and returns an outcome label. hint is consulted in one
+// property-neutral corner only (see below and applyDeliver).
+func (r *Ref) Deliver(i int, v Verdict, hint int) string {
 	p := r.Q[i]
 	r.Q = append(append([]RefPend(nil), r.Q[:i]...), r.Q[i+1:]...)
 	t := p.T
@@ -625,11 +631,16 @@ func (r *Ref) Deliver(i int, v Verdict, freshEntry bool) string {
 		r.Pool = append(r.Pool, RefTx{T: t, Gas: v.Gas, H: r.H})
 		return "admitted"
 	}
-	if r.inPool(t) >= 0 && !freshEntry {
-		// v1, the transaction is in the pool already and the real mempool did not create a second entry: it
-		// refused the repeat outright (what a mempool that checks its index before inserting does). The
-		// other behaviour the statement allows - a higher-priority repeat evicts its own older copy and takes
-		// its place - is followed below when the real mempool did create a fresh entry.
+	if r.inPool(t) >= 0 && hint != hintFresh {
+		// v1, the transaction is in the pool already and the real mempool created no second entry: it either
+		// refused the repeat outright (what a mempool that checks its index before inserting does; it keeps
+		// remembering the transaction) or ran its full-pool policy and dropped the repeat (forgetting it).
+		// Both leave the pool as it is. When a new entry did appear the full-pool policy is followed below: the
+		// repeat may evict its own older copy and take its place.
+		if hint == hintForgotten {
+			r.cacheRemove(t)
+			return "repeat-dropped"
+		}
 		return "already-in-pool"
 	}
 	out := "admitted"
@@ -1121,7 +1132,18 @@ func (in *Inst) applyDeliver(i int, v Verdict) *Viol {
 			}
 		}
 	}
-	in.Outcome = "deliver:" + in.Ref.Deliver(i, v, freshEntry)
+	// Property-neutral corner (v1, an accepted repeat of a transaction that is still in the pool): a mempool may
+	// refuse the repeat outright and keep remembering it, or run its full-pool policy (which may drop the repeat
+	// and forget it, or let it evict its own older copy). The reference follows whichever the real mempool did,
+	// told apart by whether a new list entry appeared and whether the real cache still holds the transaction.
+	hint := hintFresh
+	if !freshEntry {
+		hint = hintForgotten
+		if count(in.Ad.Cache(in.Pool), p.Tx) > 0 {
+			hint = hintRemembered
+		}
+	}
+	in.Outcome = "deliver:" + in.Ref.Deliver(i, v, hint)
 	if p.Recheck && v.Code == 0 && in.C.Ver == 1 && count(after, p.Tx) > 0 {
 		in.prio[p.Tx] = v.Prio
 	}
@@ -2014,6 +2036,7 @@ type concRun struct {
 	s          *gosched.Sched
 	journal    []string
 	updateDone bool
+	committed  bool // the application has committed the block
 	viol       *Viol
 	reaps      [][]int
 	othersLeft int
@@ -2262,7 +2285,18 @@ func (c *consensusConn) CommitSync() (*abci.ResponseCommit, error) {
 	c.cr.log("Commit requested")
 	c.cr.s.Point("app Commit response")
 	c.cr.log("Commit done")
+	c.cr.committed = true
 	return &abci.ResponseCommit{}, nil
+}
+
+// verdict is the application of the concurrent layer: it accepts every transaction, except that once it has
+// committed the block it rejects the block's transactions (replay protection, as any application with nonces
+// has). A re-admission found under this application cannot be blamed on an application that accepts replays.
+func (cr *concRun) verdict(tx int) Verdict {
+	if cr.committed && count(cr.scn.Block, tx) > 0 {
+		return Verdicts[VReject]
+	}
+	return Verdicts[VOk]
 }
 
 // conc-mode behaviour of the connection -----------------------------------------------------------
@@ -2297,7 +2331,10 @@ func (c *Conn) deliverHead(v Verdict) {
 		p.answered = true
 		return
 	}
-	c.Conc.log(fmt.Sprintf("res CheckTx(%s,recheck=%v)", TxNames[p.Tx], p.Recheck))
+	if p.verdict != nil {
+		v = *p.verdict
+	}
+	c.Conc.log(fmt.Sprintf("res CheckTx(%s,recheck=%v)=%s", TxNames[p.Tx], p.Recheck, v.Name))
 	res := abci.ToResponseCheckTx(abci.ResponseCheckTx{Code: v.Code, Priority: v.Prio, GasWanted: v.Gas})
 	p.rr.Response = res
 	p.rr.Done()
@@ -2317,8 +2354,8 @@ func (c *Conn) concCheckTx(req abci.RequestCheckTx, syncCall bool) *Pend {
 	cr.log(what)
 	if cr.scn.Mode == "local" {
 		// in-process application: the response is handled in the caller, before the call returns
-		cr.log(fmt.Sprintf("res CheckTx(%s,recheck=%v)", TxNames[p.Tx], p.Recheck))
-		v := Verdicts[VOk]
+		v := cr.verdict(p.Tx)
+		cr.log(fmt.Sprintf("res CheckTx(%s,recheck=%v)=%s", TxNames[p.Tx], p.Recheck, v.Name))
 		res := abci.ToResponseCheckTx(abci.ResponseCheckTx{Code: v.Code, Priority: v.Prio, GasWanted: v.Gas})
 		c.mu.Lock()
 		cb := c.cb
@@ -2333,6 +2370,9 @@ func (c *Conn) concCheckTx(req abci.RequestCheckTx, syncCall bool) *Pend {
 		p.answered = true
 		return p
 	}
+	// the application processes requests in arrival order; its verdict is fixed when the request arrives
+	pv := cr.verdict(p.Tx)
+	p.verdict = &pv
 	c.mu.Lock()
 	c.Q = append(c.Q, p)
 	c.mu.Unlock()
@@ -2390,7 +2430,7 @@ func RunConc(ad ConcAdapter, part string, quickBudget, thoroughBudget time.Durat
 	defer r.Finish()
 	r.Rule = "every schedule (sequence of thread choices at the scheduling points: operations of the mempool's own lock and every call of the application connection) with at most the stated number of preemptions, per scenario; non-trivial = schedules with at least one preemption"
 	r.Assume("scheduling points are the mempool's own RWMutex operations and the calls into the application connection; code between two points runs atomically (list, index and cache operations are internally locked or run under the mempool lock)")
-	r.Assume("the application answers every request with OK; responses are handled in request order by one receive goroutine (socket mode) or in the caller (local mode)")
+	r.Assume("the application accepts every transaction except, after it has committed the block, the block's own transactions (replay protection); its verdict is fixed when the request reaches it; responses are handled in request order by one receive goroutine (socket mode) or in the caller (local mode)")
 	judgeCase := func(cs ConcCase) (*Viol, []string, *gosched.Result, *concRun) {
 		res, sc := gosched.Replay(cs.Choices, func() (*gosched.Sched, interface{}) { s, cr := buildConc(ad, cs.Scn, true); return s, cr })
 		cr := sc.(*concRun)
